@@ -57,8 +57,8 @@ func main() {
 	switch os.Args[1] {
 	case "run":
 		runLines(os.Stdin, os.Stdout)
-	case "gen":
-		genMain(os.Args[2:])
+	case "check":
+		checkMain(os.Args[2:])
 	default:
 		fmt.Fprintln(os.Stderr, "unknown command")
 		os.Exit(2)
